@@ -627,6 +627,23 @@ def run(tier):
     ck.add_queries("z3", q.n, q.secs)
     q.report(ck, "lexer VC")
     ck.states += q.n
+    # character and string literals again with room for longer escapes (a three-digit hex escape needs 7 characters)
+    if n < 9:
+        saved = (n, zd, comp, rule0, end0, q)
+        n = 9
+        zd = rx.ZDom(n, prefix="w")
+        comp = rx.Comp(zd)
+        rule0, end0 = model.first_rule(comp, 0)
+        q = rx.Q()
+        q.add(*zd.domain_constraints())
+        for cls, spec in LITERAL_SPECS.items():
+            if "t_" + cls in model.name_idx and ("CHAR" in cls or "STRING" in cls):
+                found = vc3(cls, spec, " (literals up to 8 characters)")
+                if found:
+                    viol.append((cls, found, "A"))
+        ck.add_queries("z3", q.n, q.secs)
+        ck.states += q.n
+        n, zd, comp, rule0, end0, q = saved
     for cls, (L, w), variant in viol:
         lit, rest = w[:L], w[L:L + 1]
         src = lit + (rest if cls in NUMERIC else "")
